@@ -226,7 +226,7 @@ func (t *TupleType) IsAssignable(o px.Type, g px.Guard) bool {
 			return false
 		}
 		top := len(t.types)
-		if top == 0 {
+		if top == 0 || o.size.max == 0 {
 			return true
 		}
 		elemType := o.typ
@@ -242,7 +242,7 @@ func (t *TupleType) IsAssignable(o px.Type, g px.Guard) bool {
 			return false
 		}
 
-		if len(t.types) > 0 {
+		if len(t.types) > 0 && o.givenOrActualSize.max > 0 {
 			top := len(o.types)
 			if top == 0 {
 				// other accepts elements of any type
